@@ -132,6 +132,20 @@ CHECKS = {
             {"name": "c07-contract", "bin": "cmdglyph", "build": "inpkg:cmd/glyph", "run": "^TestC07Contract$", "quick": 20000, "thorough": 800000},
         ],
     },
+    "C08": {
+        "level": "model_based_exploration",
+        "manifest": {
+            "technique": "differential property testing (rapid): every request's response under N-way concurrency against its response when its client runs alone on a fresh server; provider atomicity and isolation oracles; the same histories under the race detector",
+            "level_text": "White-box through the real request path (parseSource -> setupRoutes -> createHandler, default mode and --interpret): one module made of generated pure routes (the harness's typed program generator, with user functions) plus fixed route families that reach the shared state the property names: a recursive function (evaluation-depth budget), generic functions called with int and string arguments (generic type scope), CRUD and read-modify-locally routes on the mock database, per-client and shared Redis counters, a record every client reads and renames. 2-10 clients each run 1-8 requests (and create/get/put/get/delete/get and create/get/preview/get scripts) on disjoint keys. Oracle: each client first runs alone on a fresh server; then all clients run at once on one long-lived server and every response (status and JSON body) must equal the alone response; reads of the shared record must be well-formed and carry a name some request wrote; concurrent redis.incr results on one key must be pairwise distinct and the final counter must equal the number of increments; alone, a get after requests that only changed a local copy of the fetched record must return what the get before returned. A handler panic, a request that does not finish, process death (attributed through the journal) and any race-detector report are violations.",
+            "level_note": "Responses that legitimately depend on other clients (the shared counter and the shared record) are judged by validity predicates, not by equality with the alone run. The race unit runs the same generator under -race with GORACE=halt_on_error so the first report stops the process and the journal names the case.",
+        },
+        "rule": ("a case is a module, a mode and 2-10 client request scripts; non-trivial = at least 2 clients in flight (every case); distinct = hash of the case; labels record the route families exercised"),
+        "assumptions": ["requests are issued through the handler function the server installs (no sockets); the net/http layer itself is not under test"],
+        "units": [
+            {"name": "c08-conc", "bin": "cmdglyph", "build": "inpkg:cmd/glyph", "run": "^TestC08Conc$", "quick": 1500, "thorough": 100000, "gomaxprocs": 8},
+            {"name": "c08-race", "bin": "cmdglyph", "build": "inpkg:cmd/glyph", "run": "^TestC08Conc$", "race": True, "reports_as": "c08-conc", "quick": 400, "thorough": 30000, "gomaxprocs": 8},
+        ],
+    },
     "C10": {
         "level": "exploration",
         "manifest": {
